@@ -8,6 +8,7 @@ package dialect
 //@   requires rw != nil
 //@   ensures  (res != nil) == ufDialectHas(rw, id)
 //@   ensures  res != nil ==> res.CRCExtra() == ufDialectExtra(rw, id) && ufCodecId(res) == ufDialectCodec(rw, id)
+//@   ensures  res != nil ==> message.SpecCodecInv(res)
 //@   modifies nothing
 //@   trusted
 //@   assumes  the message table is not modified after Initialize, so GetMessage is a function of (rw, id): ufDialectHas / ufDialectExtra / ufDialectCodec are DEFINED by its results
